@@ -281,10 +281,16 @@ impl Ctx {
                         Ok(m) if m.file_type().is_symlink() => {
                             if e.file_name() == "xm" && p.is_dir() {
                                 walk(base, &p, out);
+                            } else if let Ok(t) = std::fs::metadata(&p) {
+                                // a link to a regular file (the log path of pre kind 2, or that link moved
+                                // into the archive window) counts as the file it names
+                                if t.is_file() {
+                                    out.push((p.strip_prefix(base).unwrap().to_string_lossy().to_string(), t.len()));
+                                }
                             }
                         }
                         Ok(m) if m.is_dir() => {
-                            if !(d == base && e.file_name() == "side") {
+                            if !(d == base && (e.file_name() == "side" || e.file_name() == "real")) {
                                 walk(base, &p, out)
                             }
                         }
@@ -517,6 +523,13 @@ pub fn run(case: &Val) -> Val {
     let mut old: Option<RollingFileAppender> = None;
     if c[2].l()[0].n() == 1 {
         std::fs::write(ctx.active(), c[2].l()[1].s()).unwrap();
+    }
+    if c[2].l()[0].n() == 2 {
+        // the configured log path is a SYMBOLIC LINK to the file that holds the pre-existing content
+        // (a common deployment: /var/log/app/current -> /data/logs/app.log)
+        std::fs::create_dir(ctx.dir.join("real")).unwrap();
+        std::fs::write(ctx.dir.join("real").join("cur.data"), c[2].l()[1].s()).unwrap();
+        std::os::unix::fs::symlink(ctx.dir.join("real").join("cur.data"), ctx.active()).unwrap();
     }
     let mut out: Vec<Val> = Vec::new();
     let mut app = match ctx.build(c[3].b()) {
